@@ -162,13 +162,16 @@ var Mutations = []string{"replace-subexpr", "hetero-element", "hetero-key", "het
 	"unknown-field", "subscript-non-container", "non-numeric-index", "wrong-key-type", "arity-plus", "arity-minus",
 	"undefined-var", "reserved-var", "optional-for-payload", "inconsistent-typevar", "call-non-function", "empty-literal-mix",
 	"member-on-non-object", "cond-not-bool", "payload-for-optional", "same-variable-twice-then-mismatch",
-	"bottom-typed-subexpr", "bottom-typed-key"}
+	"bottom-typed-subexpr", "bottom-typed-key", "bottom-typed-dynamic-argument"}
 
 // Mutate applies one mutation to a copy of e and returns it with the
 // mutation's name ("" if the mutation found no place to apply).
 func (g *G) Mutate(e *m.Expr) (*m.Expr, string) {
 	e = e.Clone()
 	kind := Mutations[g.intn("mutation", len(Mutations))]
+	if len(g.OnlyMutations) > 0 {
+		kind = g.OnlyMutations[g.intn("onlymutation", len(g.OnlyMutations))]
+	}
 	ss := slots(e)
 	pickSlot := func(pred func(p *m.Expr, i int) bool) *slot {
 		var c []slot
@@ -211,6 +214,30 @@ func (g *G) Mutate(e *m.Expr) (*m.Expr, string) {
 		}
 		s.parent.A[s.idx] = bottom()
 		return Parenthesize(e), kind
+	case "bottom-typed-dynamic-argument":
+		// an argument of a call through a function VALUE (non-identifier callee) whose type is the
+		// element type of an empty literal: only equal types fit a function value's parameters
+		if s := pickSlot(func(p *m.Expr, i int) bool { return p.K == "dcall" && i >= 1 }); s != nil {
+			s.parent.A[s.idx] = bottom()
+			return Parenthesize(e), kind
+		}
+		if !g.O.Harness {
+			return e, ""
+		}
+		return wrapTop(func(x *m.Expr) *m.Expr {
+			f := g.Var(HsubT)
+			var callee *m.Expr
+			if g.chance("calleeform", 1, 2) {
+				callee = m.Index(m.ListE(f), m.Lit("num", "0"))
+			} else {
+				callee = m.Group(m.Member(m.ObjE([]string{"f"}, []*m.Expr{f}), "f"))
+			}
+			args := []*m.Expr{bottom(), m.Lit("num", "1")}
+			if g.chance("argpos", 1, 2) {
+				args[0], args[1] = args[1], args[0]
+			}
+			return m.Index(m.ListE(x), m.DCall(callee, args...))
+		})
 	case "bottom-typed-key":
 		s := pickSlot(func(p *m.Expr, i int) bool { return p.K == "map" && len(p.A) >= 2 && i%2 == 0 })
 		if s == nil {
